@@ -136,6 +136,41 @@ claim("C12", "exploration",
       TRUST_STACK + " Schedules are whatever the OS produces under the injected delays.",
       "DESIGN.md 4 C12")
 
+TRUST_CERT = ("Trusted: the certificate generators (pv/gen/certv1.py, certv2.py) and the independent "
+              "verifiers (pv/oracle/certv1.py, certv2.py); third-party crypto used crosswise "
+              "(ecdsa, cryptography/OpenSSL, libsecp256k1). Held = on the certificates generated "
+              "in this run.")
+
+claim("C06", "exploration",
+      "runtime monitor: independent verifier (own secp256k1 arithmetic + OpenSSL ECDSA) vs the "
+      "real loader/validator over generated certificates and single-point corruptions",
+      "Thousands of genuine version-1 certificates over random element graphs and every class of "
+      "single-point corruption are loaded and validated by the real code; the result map "
+      "(validity, value, tweak, first failing element) is compared with an independent "
+      "verifier, one-directionally where libsecp256k1 is stricter (high-S, lax DER); pairing "
+      "runs check that a target's verdict ignores elements off its path.",
+      TRUST_CERT, "DESIGN.md 4 C06")
+
+claim("C07", "exploration",
+      "runtime monitor: crosswise-library verifier with numeric struct offsets vs the real "
+      "version-2 validator over generated X.509 chains / quotes and corruptions",
+      "Fresh P-256 X.509 chains (depth 1..3, valid/expired/future), attestation keys, QE report "
+      "bodies and quotes are generated with all private keys in hand; genuine material must be "
+      "accepted with exactly the signed custom message and quote fields, and 30 corruption "
+      "classes (byte flips anywhere, 31-of-32-byte bindings, re-parenting, foreign keys and "
+      "curves, attacker branch under a non-X.509 element, wrong root) must be refused naming "
+      "the first failing element.",
+      TRUST_CERT + " X.509 parsing is shared with the code (cryptography).", "DESIGN.md 4 C07")
+
+claim("C16", "exploration",
+      "hostile-document workload under a sys.monitoring step budget with an independent graph "
+      "walk, per-target verdict and save/load round-trip monitors",
+      "Mutated genuine certificates (so that valid chains exist) and synthetic documents are "
+      "loaded under a logical step budget; loaded certificates must have a finite cycle-free "
+      "path per target by an independent walk, validate without raising with a verdict per "
+      "target, and keep verdicts and values across save/load.",
+      TRUST_CERT, "DESIGN.md 4 C16")
+
 
 def main():
     props = [json.loads(l) for l in open(os.path.join(HERE, "properties.jsonl"))]
